@@ -366,28 +366,37 @@ class Det(Dev):
 
 
 class Signal(Dev):
-    """Monitorable signal with ophyd's subscribe/clear_sub semantics."""
+    """Monitorable signal with ophyd's subscribe/clear_sub semantics (one entry per subscribe call, per event type)."""
+
+    default_type = "value"
 
     def __init__(self, name, lab, value=0):
         super().__init__(name, lab)
         self.value = value
-        self.subs = []
+        self.entries = []  # (callback, event type)
+        self.update_type = None  # event type of the updates pushed by the harness (None: the default type)
+
+    @property
+    def subs(self):
+        return [cb for cb, _ in self.entries]
 
     def subscribe(self, cb, event_type=None, run=False):
-        self.subs.append(cb)  # registered first: a device may fail after it has taken the callback
+        self.entries.append((cb, event_type or self.default_type))  # registered first: a device may fail after it has taken the callback
         self.lab.device_call(self, "subscribe")
         if run:
             cb(value=self.value, timestamp=self.lab.clock.t, obj=self)
-        return len(self.subs)
+        return len(self.entries)
 
     def clear_sub(self, cb, event_type=None):
         self.lab.device_call(self, "clear_sub")
-        self.subs = [c for c in self.subs if c != cb]
+        self.entries = [(c, t) for c, t in self.entries if not (c == cb and (event_type is None or t == event_type))]
 
-    def put(self, v):
+    def put(self, v, event_type=None):
         self.value = v
-        for cb in list(self.subs):
-            cb(value=v, timestamp=self.lab.clock.t, obj=self, old_value=None)
+        et = event_type or self.update_type or self.default_type
+        for cb, t in list(self.entries):
+            if t == et:
+                cb(value=v, timestamp=self.lab.clock.t, obj=self, old_value=None)
 
     def get(self):
         return self.value
